@@ -604,6 +604,7 @@ def run(ctx):
         "non-mutation of the caller's array and absence of aliasing are run-time facts: differential part only",
     ]
     float_path_oracle(ctx)
+    general_pad_oracle(ctx)
     return C.finish(ctx, "proof")
 
 
@@ -638,6 +639,62 @@ def float_path_oracle(ctx):
             ctx.fail("Deltas.apply on integer features differs from the float64 computation cast back to the input dtype",
                      dict(pad_mode=mode, pad_kwargs=kw, dtype=str(np.dtype(dt)), x=x.tolist(), num_deltas=nd, context_window=cw,
                           got=got.tolist(), expected=ref.tolist()), kind="impl")
+            break
+
+
+def general_pad_oracle(ctx):
+    """The documented meaning for EVERY np.pad mode (the model has five): block k is the k-fold composed
+    regression filter applied to the signal whose edges are extended, by k * context_window frames, with
+    the chosen mode - in particular modes whose pad values depend on the pad WIDTH (linear_ramp) or on
+    statistics of the signal (mean, median, minimum, maximum)."""
+    C.ensure_impl_path()
+    import numpy as np
+    from pydrobert.speech import post
+
+    r = ctx.rng
+    nprng = np.random.RandomState(ctx.seed + 77)
+    modes = ["linear_ramp", "mean", "median", "minimum", "maximum", "edge", "reflect", "symmetric", "wrap", "constant"]
+    for rep in range(ctx.scale(120, 1200)):
+        mode = modes[rep % len(modes)]
+        nd = r.choice([1, 2, 2, 3])
+        shape = [r.randint(3, 7) for _ in range(nd)]
+        ax = r.randrange(nd)
+        shape[ax] = r.randint(4, 9)
+        x = nprng.randn(*shape) * 5.0
+        D, W = r.choice([1, 2, 2, 3]), r.choice([1, 2, 3])
+        concat = r.random() < 0.5
+        tgt = r.randrange(nd) if concat else r.randrange(nd + 1)
+        d = post.Deltas(D, concatenate=concat, context_window=W, pad_mode=mode, target_axis=tgt)
+        try:
+            got = d.apply(x, axis=ax)
+        except ValueError:
+            continue
+        fs = int_filters(W, D)
+        den = float(delta_den(W))
+        blocks = [x]
+        ok_ref = True
+        for k in range(1, D + 1):
+            pw = [(0, 0)] * nd
+            pw[ax] = (k * W, k * W)
+            try:
+                xp = np.pad(x, pw, mode)
+            except ValueError:
+                ok_ref = False
+                break
+            f = np.asarray(fs[k], dtype=np.float64) / den ** k
+            blk = np.apply_along_axis(lambda v: np.correlate(v, f, "valid"), ax, xp)
+            blocks.append(blk)
+        if not ok_ref:
+            continue
+        want = np.concatenate(blocks, tgt) if concat else np.stack(blocks, tgt)
+        ctx.count("generalpad:%s" % mode)
+        ctx.case(dict(kind="general-pad", mode=mode, shape=shape, axis=ax, num_deltas=D, context_window=W, concatenate=concat,
+                      target_axis=tgt), nontrivial=True)
+        if got.shape != want.shape or got.dtype != x.dtype or not np.allclose(got, want, rtol=1e-9, atol=1e-9):
+            err = float(np.max(np.abs(got - want))) if got.shape == want.shape else None
+            ctx.fail("Deltas.apply differs from the documented regression filters with edges extended by np.pad mode '%s'" % mode,
+                     dict(pad_mode=mode, x=x.tolist(), axis=ax, num_deltas=D, context_window=W, concatenate=concat, target_axis=tgt,
+                          got_shape=list(got.shape), documented_shape=list(want.shape), max_abs_diff=err), kind="impl")
             break
 
 
